@@ -105,6 +105,22 @@ def property_oracle(sc, tr):
 
 
 def run(res, tier, seed, replay):
+    ob = run_pure(res, tier, seed, replay)
+    if not replay or json.load(open(replay)).get("component") == "broker":
+        # the cost model as the broker applies it: brokers built from a (possibly re-used) builder must size
+        # rebalancing orders and compute fees with the configured cost list (driver/broker.py, projection C13)
+        import broker
+        cov_pure = dict(res.coverage)
+        broker.run_property(res, "C13", tier, seed, replay, [])
+        cov_b = dict(res.coverage)
+        res.coverage.update(cov_pure)
+        res.coverage["evaluations"] = cov_pure.get("evaluations", 0) + cov_b.get("evaluations", 0)
+        res.coverage["broker_part"] = {k: cov_b.get(k) for k in ("evaluations", "distinct_nontrivial", "scenarios",
+                                                                 "quirk_valuation_matched")}
+    return ob
+
+
+def run_pure(res, tier, seed, replay):
     ob = obligations_or_violation(res, ["C13"])
     wd = workdir("C13")
     rng = random.Random(seed)
